@@ -312,7 +312,9 @@ func (c *Conn) shutdown(abortErr error) error {
 			releaseList(a.resultCapTable).release()
 			// Because shutdown is now the only task running, no need to
 			// acquire sender lock.
-			a.releaseMsg()
+			if a.releaseMsg != nil {
+				a.releaseMsg()
+			}
 		}
 	}
 
